@@ -21,6 +21,8 @@ QUERY = "OrqModel.Properties.Query"
 FROZEN = "OrqModel.Properties.Frozen"
 JUSTIFIED = "OrqModel.Properties.Justified"
 ERRLOG = "OrqModel.Properties.ErrLog"
+KEYS = "OrqModel.Properties.Keys"
+NEXTTOTAL = "OrqModel.Properties.NextTotal"
 
 TRUSTED = [
     "Lean 4.33 kernel (thorough tier: re-checked by leanchecker)",
@@ -113,7 +115,8 @@ PROPS = {
     ),
     "C11": dict(
         title="expression errors contained",
-        theorems={ERRORS: ["C11_next_never_raises_expr", "C11_update_never_raises_expr", "C11_render_never_raises_expr", "C11_request_never_raises_expr"], STATUS: ["tbl_failed_request_total"], SITES: ["evalSites_guarded", "evalSites_nonempty"], ERRLOG: ["C11_errors_persist"]},
+        theorems={ERRORS: ["C11_next_never_raises_expr", "C11_update_never_raises_expr", "C11_render_never_raises_expr", "C11_request_never_raises_expr"], STATUS: ["tbl_failed_request_total"], SITES: ["evalSites_guarded", "evalSites_nonempty"], ERRLOG: ["C11_errors_persist"],
+                  NEXTTOTAL: ["C11_next_never_raises", "C11_next_never_raises_history", "C11_error_handler_total"]},
         keys=["status", "errors", "staged"], offers="ids",
         prof=dict(p_badexpr=0.8), hist=dict(p_pause=0.05, p_cancel=0.1, p_task_pause=0.15, p_first_pending=0.1), monitor="C11",
         unproven=["'recorded and failed' postcondition proved only as: an error entry is logged before the failed request (C11_*), not as a full postcondition"],
@@ -136,13 +139,15 @@ PROPS = {
     ),
     "C14": dict(
         title="composed graph is exactly the definition",
-        theorems={COMPOSE: ["C14_edges_sound", "C14_one_edge_per_triple", "C14_next_transitions_exact"], COMPLETE: ["C14_complete"]},
+        theorems={COMPOSE: ["C14_edges_sound", "C14_one_edge_per_triple", "C14_next_transitions_exact"], COMPLETE: ["C14_complete"],
+                  KEYS: ["C14_keys_distinct", "nextTransitions_nodup"]},
         keys=[], offers=None, prof=dict(p_parallel_edge=0.3, max_tasks=7), hist=dict(), monitor="C14",
         compose_only=True, unproven=["C14_complete is partial correctness (the worklist emptying is a hypothesis); C14_perm (declaration order) not proved; search only"],
     ),
     "C15": dict(
         title="accepted definitions are executable; broken references reported",
-        theorems={SITES: ["specFacts_expr_positions_inspected", "specFacts_workflow_inspected"], STATUS: ["tbl_task_targets_have_events", "tbl_item_targets_have_events", "C15_task_events_accepted"], ERRORS: ["C11_update_never_raises_expr", "C11_next_never_raises_expr"]},
+        theorems={SITES: ["specFacts_expr_positions_inspected", "specFacts_workflow_inspected"], STATUS: ["tbl_task_targets_have_events", "tbl_item_targets_have_events", "C15_task_events_accepted"], ERRORS: ["C11_update_never_raises_expr", "C11_next_never_raises_expr"],
+                  NEXTTOTAL: ["C11_next_never_raises", "C11_error_handler_total"]},
         keys=["status", "errors"], offers="ids", prof=dict(), hist=dict(p_pause=0.05, p_cancel=0.05, p_rerun=0.2),
         monitor="C15", unproven=["C15_no_internal_error (history) not proved; the inspectors are not modelled, only their inventories are generated"],
     ),
@@ -162,16 +167,16 @@ PROPS = {
     "C18": dict(
         title="history is append-only; finished records never change",
         theorems={HISTORY: ["C18_extends_request", "C18_extends_next", "C18_extends_report", "C18_extends_render", "C18_extends_rerun", "C18_history_extends", "C18_record_core_fixed", "C18_context_fixed"], ITEMS: ["C13_completed_rows"], RETRY: ["C13_retrying_only_by_retry_event", "C13_no_retry_without_status_change"], STATUS: ["C03_fresh_start_statuses"],
-                  FROZEN: ["C18_decided_records_frozen", "C18_decided_records_completed"]},
+                  FROZEN: ["C18_decisions_never_change", "C18_decided_records_frozen", "C18_decided_records_completed"]},
         keys=["contexts", "routes", "sequence"], offers=None,
         prof=dict(p_items=0.25, p_join=0.7, p_loop=0.3, p_template=0.3, templates=[8, 8, 2, 0, 3]),
         hist=dict(p_fail=0.3, p_persist=0.15, p_rerun=0.3, p_dup_report=0.3, p_lazy_start=0.25),
-        monitor="C18", unproven=["that the values of recorded decisions never change (proved: a decided record keeps its status and stays decided); search only"],
+        monitor="C18", unproven=["append-only history, frozen contexts/predecessors, frozen status and decisions of decided records are all proved along every history; what remains search-only is the tie of the model to the code"],
     ),
     "C19": dict(
         title="conducting deterministic; next is a pure query",
         theorems={NEXT: ["C19_next_no_status_change_when_not_running", "C01_no_offer_unless_running_or_remediation", "C08_offers_sorted"], SITES: ["setSites_covered"], JOIN: ["C19_inbound_status_perm"],
-                  QUERY: ["C19_next_idempotent", "C19_next_is_query", "C19_render_is_query", "C19_fragment_evaluator_items_blind", "C19_next_idempotent_fragment"]},
+                  QUERY: ["C19_next_idempotent", "C19_next_is_query", "C19_render_is_query", "C19_fragment_evaluator_items_blind", "C19_next_idempotent_fragment", "C19_definition_and_graph_fixed"]},
         keys=None, offers="full", prof=dict(p_items=0.35, p_badexpr=0.3), hist=dict(p_next2=0.5, p_pause=0.05, p_fail=0.3), monitor="C19",
         unproven=["repeatability of next is proved for calls that return tasks and evaluators that cannot see the staging area (C19_next_idempotent); hash-seed independence is outside any model, multi-seed replay only"],
     ),
